@@ -538,6 +538,65 @@ theorem C07_accepts_valid (algOk : α → Bool) (v20 : α) (truthy : α → Bool
     not_true_eq_false]
   rw [if_neg (by omega), if_neg (by omega)]
 
+/-! ### State across calls on one receiver (metadata reloads) -/
+
+/-- **Histories.**  For every initial store and every sequence of reloads (successful or failing)
+    and deliveries on one receiver, each processed request satisfies the specification against the
+    metadata in force *at that step* (the sources of the last successful reload). -/
+theorem C07_history_meets_spec (algOk : α → Bool) (v20 : α) (truthy : α → Bool)
+    (steps : List (Step α κ)) (srcs : List (Source α κ))
+    (hrow : ∀ r, Step.recv r ∈ steps → r.row.wf = true) :
+    specHistory v20 truthy srcs steps ((runHistory algOk v20 truthy srcs steps).map StepOut.flag) = true := by
+  induction steps generalizing srcs with
+  | nil => simp [specHistory]
+  | cons st rest ih =>
+    have hrest : ∀ r, Step.recv r ∈ rest → r.row.wf = true := fun r hr => hrow r (List.mem_cons_of_mem _ hr)
+    cases st with
+    | reload spec =>
+      cases spec with
+      | none => simp only [runHistory, List.map_cons, specHistory]; exact ih srcs hrest
+      | some new => simp only [runHistory, List.map_cons, specHistory]; exact ih new hrest
+    | recv r =>
+      simp only [runHistory, List.map_cons, specHistory, StepOut.flag, Bool.and_eq_true]
+      exact ⟨C07_model_meets_spec algOk v20 truthy r.row r.cfg _ r.now r.msg (hrow r List.mem_cons_self),
+        ih srcs hrest⟩
+
+/-- A successful reload forgets the previous store: what happens afterwards does not depend on it. -/
+theorem C07_reload_forgets (algOk : α → Bool) (v20 : α) (truthy : α → Bool)
+    (srcs₁ srcs₂ new : List (Source α κ)) (rest : List (Step α κ)) :
+    runHistory algOk v20 truthy srcs₁ (.reload (some new) :: rest) =
+    runHistory algOk v20 truthy srcs₂ (.reload (some new) :: rest) := by
+  simp [runHistory]
+
+/-- A failing reload leaves the store as it was. -/
+theorem C07_failed_reload_keeps (algOk : α → Bool) (v20 : α) (truthy : α → Bool)
+    (srcs : List (Source α κ)) (rest : List (Step α κ)) :
+    runHistory algOk v20 truthy srcs (.reload none :: rest) =
+    .reloadFailed :: runHistory algOk v20 truthy srcs rest := by
+  simp [runHistory]
+
+/-- **A key that is no longer the issuer's metadata key stops working at the reload.**  Whatever the
+    store held before: right after a successful reload to `new`, a request whose enveloped signature
+    was made with a key that `new` does not bind to the issuer is refused (certificate-only mode
+    apart), and under a requirement so is a Redirect request whose detached signature was. -/
+theorem C07_history_old_key_rejected (algOk : α → Bool) (v20 : α) (truthy : α → Bool)
+    (srcs new : List (Source α κ)) (r : Recv α κ) (rest : List (Step α κ)) (k : κ)
+    (hk : ∀ c ∈ lookupCerts new r.issuer, c.key ≠ k)
+    (hcase : (r.cfg.certOnly = false ∧ ∃ i, r.msg.enveloped = .signed k i) ∨
+             (requiresSigned r.cfg = true ∧ r.msg.binding = .redirect ∧
+              ∃ msg relay alg, r.msg.signature = some (.signed k msg relay alg))) :
+    ∃ v outs, runHistory algOk v20 truthy srcs (.reload (some new) :: .recv r :: rest) =
+      .reloaded :: .verdict v :: outs ∧ v ≠ .ok := by
+  refine ⟨_, _, by simp only [runHistory]; rfl, ?_⟩
+  rcases hcase with ⟨hco, i, henv⟩ | ⟨hreq, hb, msg, relay, alg, hsig⟩
+  · exact C07_bad_enveloped_rejected algOk v20 truthy r.row r.cfg _ r.now r.msg k i hco henv (Or.inr hk)
+  · intro h
+    obtain ⟨alg', k', _, hs, _, c, hc, hck⟩ :=
+      C07_signature_detached algOk v20 truthy r.row r.cfg _ r.now r.msg hreq hb h
+    rw [hsig] at hs
+    cases hs
+    exact hk c hc hck
+
 /-! ### The regenerated dispatch table -/
 
 /-- Every request class in `SERVICE2REQUEST` checks signatures on the element it stands for and
@@ -613,5 +672,21 @@ example : specOk 20 t cfg0 md0 1000 { msg0 with enveloped := .absent } true = fa
 example : specOk 20 t cfg0 md0 1000 msg0 true = true := by decide
 -- hypotheses of C07_accepts_valid are satisfiable
 example : md0.find? (fun c' => decide (c'.key = (⟨7, false⟩ : Cert Nat).key)) = some ⟨7, false⟩ := by decide
+
+-- histories: source A binds key 7 to issuer 500; after a reload to a source binding key 8 the old key is refused,
+-- the new one processed; a failing reload changes nothing; first source wins
+private def srcA : Source Nat Nat := ⟨[(500, [⟨7, false⟩])]⟩
+private def srcB : Source Nat Nat := ⟨[(500, [⟨8, false⟩])]⟩
+private def srcOther : Source Nat Nat := ⟨[(501, [⟨7, false⟩])]⟩
+private def rcv (k : Nat) : Recv Nat Nat := ⟨row0, cfg0, 1000, 500, { msg0 with enveloped := .signed k true }⟩
+example : (runHistory a 20 t [srcA] [.recv (rcv 7), .reload (some [srcB]), .recv (rcv 7), .recv (rcv 8)]).map StepOut.flag
+    = [true, true, false, true] := by decide
+example : (runHistory a 20 t [srcA] [.reload none, .recv (rcv 7), .reload (some [srcOther]), .recv (rcv 7)]).map StepOut.flag
+    = [false, true, true, false] := by decide
+example : (runHistory a 20 t [srcA] [.reload (some [srcA, srcB]), .recv (rcv 7), .recv (rcv 8),
+    .reload (some [srcB, srcA]), .recv (rcv 7), .recv (rcv 8)]).map StepOut.flag = [true, true, false, true, false, true] := by decide
+-- the specification on a history where the old key kept working after the reload: violated at that step
+example : specHistory 20 t [srcA] [.recv (rcv 7), .reload (some [srcB]), .recv (rcv 7)] [true, true, true] = false := by decide
+example : specHistory 20 t [srcA] [.recv (rcv 7), .reload (some [srcB]), .recv (rcv 7)] [true, true, false] = true := by decide
 
 end C07
